@@ -304,6 +304,14 @@ def _f1(seedoff):
 REGISTRY["C04"]["teq"].append(_f1(4))
 # refused writes (memory limit) on persistent stores, next to records still in the write-behind buffer
 REGISTRY["C01"]["teq"].append(seq({"only": "limited", "n": 10, "ops": 80, "seedoff": 101}, {"only": "limited", "seedoff": 101}))
+REGISTRY["C13"]["teq"].append({"engine": "conc", "quick": {"n": 150, "mode": "hist", "accounting": 1, "seedoff": 13}, "thorough": {"n": 4000, "mode": "hist", "accounting": 1, "seedoff": 13},
+                                "oracle": True, "mismatch_is_failure": False, "timeout": 3400,
+                                "nontrivial": lambda case, res: res == "lin=1", "distinct_key": lambda case, res: case,
+                                "what": "the C07 histories (2-4 threads racing creates, growing and shrinking replacements with 20 B - 8 KB values, deletes, increments, compare-and-swap on shared keys; controlled schedules and free-running) with an oracle at quiescence: memory_usage() must equal the sum over the live records (H4 snapshot) of overhead + key + value, len() the number of live keys"})
+REGISTRY["C13"]["teq"].append({"engine": "conc", "quick": {"n": 24, "mode": "mem", "seedoff": 13}, "thorough": {"n": 400, "mode": "mem", "seedoff": 13},
+                                "oracle": True, "mismatch_is_failure": False, "timeout": 3400,
+                                "nontrivial": lambda case, res: "refused=0" not in case, "distinct_key": lambda case, res: case,
+                                "what": "four writers (creators, growers, deleters; slice, Bytes and insert-if-absent spellings) race for 60 ms against a memory limit that admits only some of them while a monitor thread samples memory_usage(): a sample above the limit is the violation; afterwards the accounting must be exact"})
 REGISTRY["C13"]["teq"].append(seq({"only": "limited", "n": 10, "ops": 80, "seedoff": 113}, {"only": "limited", "seedoff": 113}))
 REGISTRY["C11"]["teq"].append(_f1(11))
 
